@@ -3,7 +3,7 @@ from functools import partial
 
 from . import engine
 from .rules import (tables, errflow, stop, scope, fold, hashorder, eqfield, cast, lock, witness, orpat, guard, parsepure,
-                    kernel, evalorder, layer, export, panic, misc, pairflowrule, variant, folddrop, queryguard, iterops, round3, forshape)
+                    kernel, evalorder, layer, export, panic, misc, pairflowrule, variant, folddrop, queryguard, iterops, round3, forshape, typeprint)
 
 TRUST = ["rustc: type checking, MIR construction, Instance resolution, auto traits",
          "pest / pest_meta: PEG semantics, silent/atomic rule semantics, PrattParser precedence climbing",
@@ -13,8 +13,6 @@ NOT_APPLICABLE = {
     "C10": "subtype laws (reflexivity, transitivity, bounds, value soundness) quantify over an infinite type universe: deciding "
            "them needs induction or enumeration, not a shape of the code; the only structural surrogate (arm order of "
            "Type::matches) would be a frozen copy of the function, i.e. a false alarm in waiting (DESIGN.md section 4, C10)",
-    "C15": "a relation between a printer (Display derives with inline conditionals) and a PEG parser over all types: "
-           "value-level round trip; the only structural surrogate would be a source-fragment match (DESIGN.md section 4, C15)",
 }
 
 PROPS = {}
@@ -169,6 +167,18 @@ prop("C14",
      "and the dispatch arms; ~900 ordered literal pairs are checked for PEG shadowing. Nothing is executed.",
      "static table agreement: docs / Pratt table (MIR) / pest grammar / operator enum / dispatch arms + PEG literal shadowing",
      "docs/operators.md is the documented table; four operators it omits are placed as the property statement says")
+
+prop("C15",
+     [typeprint.run],
+     "Decides the structural half of the print / re-parse round trip of types: the printing code (Display of Type, FunctionType, "
+     "MultiType, read from the MIR as templates + nested positions + the tests `is a union` / `is !` that pick an alternative) is "
+     "instantiated with sample sub-types (plain, union, function, function returning a union, cell, array, tuple, (), any, !) in "
+     "every nested position and every list length the grammar admits; each text is parsed with the repository's grammar and must "
+     "be one type, of the rule Type::from(pair) maps to the printed variant, with every nested sample as one operand of its own "
+     "rule (the parenthesisation clause: unions in function results and cell contents). Does NOT decide the round trip for all "
+     "types (value level), struct types (identifiers), nor the order of union members.",
+     "printer model recovered from MIR format templates; PEG parse of instantiated skeletons with the repository grammar",
+     "samples are finite: one representative per kind of nested type")
 
 prop("C16",
      [partial(witness.run, only=("W1SendSync",)), orpat.run_unsafe, lock.run, lock.run_global, parsepure.run],
